@@ -235,6 +235,10 @@ def c15_run_one(prop, tier, root, idx, extra):
     rng = core.stream(seed, "cfg")
     params = configs.gen_params(rng, max_hosts=120, allow_alpha1=True,
                                 small_bias=True)
+    if rng.random() < 0.03 and params.get("address_space_bounds") is None:
+        # several hundred hosts: the DMZ / sensitive subnets outgrow the
+        # user subnets (more than 5 hosts) from 201 hosts on
+        params["num_hosts"] = rng.choice([200, 201, 202, 205, 240, 250])
     return c15_execute({"params": params, "seed": seed}, tier,
                        {"idx": idx, "seed": seed})
 
